@@ -312,6 +312,41 @@ def run_case(case, st):
 
 
 # ------------------------------------------------------------------ waits (explorer C)
+def _wait_verdict(which, name, res, events, TIMEOUT):
+    """Oracle for one waiter.  The library processes a heartbeat inside the critical section of the condition that the
+    waiters use, and calls the heartbeat callbacks there: when that is so (every ("hb-cs", state, True) note), the
+    callback is the moment the message is processed and a wait must return exactly for messages processed after it
+    began.  When the callbacks run outside the critical section there is no such moment: a wait must return for a
+    message delivered entirely after it began waiting, must fail when every delivery had ended before it was called, and
+    may do either for a message in flight.  Returns (ok, kind, want, during)."""
+    first_wait = next((i for i, e in enumerate(events) if e[:2] == ("wait-enter", name)), None)
+    called = next((i for i, e in enumerate(events) if e == ("call", name)), 0)
+    match = (lambda x: True) if which == "heartbeat" else (lambda x: x == 0)
+    cs = [(i, e) for i, e in enumerate(events) if e[0] == "hb-cs"]
+    if all(e[2] for i, e in cs):
+        during = [e[1] for i, e in cs if first_wait is not None and i > first_wait]
+        must_return, must_fail = any(match(x) for x in during), not any(match(x) for x in during)
+        states = during
+    else:
+        starts = {e[1]: i for i, e in enumerate(events) if e[0] == "hb-start"}
+        ends = {e[1]: i for i, e in enumerate(events) if e[0] == "hb-end"}
+        vals = {e[1]: e[2] for e in events if e[0] == "hb-start"}
+        after = [vals[k] for k, i in starts.items() if first_wait is not None and i > first_wait]
+        inflight = [vals[k] for k in starts if ends.get(k, len(events)) > called]
+        during = after
+        must_return, must_fail = any(match(x) for x in after), not any(match(x) for x in inflight)
+        states = list(vals.values())
+    if must_return:
+        ok = res[0] == "returned" and res[2] < TIMEOUT + 0.2
+        if ok and which == "heartbeat":
+            ok = res[2] < TIMEOUT and res[1] in {R.STATE_NAMES.get(R.after_heartbeat(x)) for x in states}
+        return ok, "missed", f"{name} returns (messages {during} were processed during its wait)", during
+    if must_fail:
+        ok = res[0] == "NmtError" and (which != "heartbeat" or abs(res[2] - TIMEOUT) < 0.2)
+        return ok, "spurious", f"{name}: NmtError at the time-out (nothing arrived during its wait)", during
+    return True, "in-flight", "", during
+
+
 def run_wait2(case, st):
     """Two waiters on one NmtMaster: every waiter whose wait had begun when a matching message was processed returns."""
     import canopen.nmt as nmt_mod
@@ -321,10 +356,11 @@ def run_wait2(case, st):
 
     def harness(s):
         m = nmt_mod.NmtMaster(5)
-        m.add_heartbeat_callback(lambda state: s.note(("hb-cs", state)))
+        m.add_heartbeat_callback(lambda state: s.note(("hb-cs", state, m.state_update.lock.owner is s.cur)))
         t0 = simenv.W.now
 
         def waiter():
+            s.note(("call", s.cur.name))
             try:
                 r = m.wait_for_heartbeat(TIMEOUT) if which == "heartbeat" else m.wait_for_bootup(TIMEOUT)
                 return ("returned", r, round(simenv.W.now - t0, 4))
@@ -333,7 +369,9 @@ def run_wait2(case, st):
 
         def receiver():
             for i, b in enumerate(hbs):
+                s.note(("hb-start", i, b))
                 m.on_heartbeat(0x705, bytes([b]), 10.0 + i)
+                s.note(("hb-end", i))
         ws = [s.spawn(waiter, "w1"), s.spawn(waiter, "w2")]
         s.spawn(receiver, "receiver")
         return lambda: ([w.res if w.exc is None else ("EXC", repr(w.exc)[:80], 0) for w in ws], tuple(s.events), s.deadlock)
@@ -356,17 +394,10 @@ def run_wait2(case, st):
             if res[0] == "EXC":
                 st.violation(f"C11:wait2:{which}:exception", rc, "state or NmtError", res[1])
                 return
-            first_wait = next((i for i, e in enumerate(events) if e[:2] == ("wait-enter", name)), None)
-            during = [e[1] for i, e in enumerate(events) if e[0] == "hb-cs" and first_wait is not None and i > first_wait]
-            matching = during if which == "heartbeat" else [x for x in during if x == 0]
-            st.outcome(f"{which} two waiters: during={bool(matching)} -> {res[0]}")
-            if matching and res[0] != "returned":
-                st.violation(f"C11:wait2:{which}:missed", rc, f"{name} returns (messages {during} were processed during its wait)",
-                             f"{results} events={events}"[:400])
-                return
-            if not during and res[0] != "NmtError":
-                st.violation(f"C11:wait2:{which}:spurious", rc, f"{name}: NmtError (nothing arrived during its wait)",
-                             f"{results} events={events}"[:400])
+            ok, kind, want, during = _wait_verdict(which, name, res, events, TIMEOUT)
+            st.outcome(f"{which} two waiters: {kind} -> {res[0]}")
+            if not ok:
+                st.violation(f"C11:wait2:{which}:{kind}", rc, want, f"{results} events={events}"[:400])
                 return
 
     if "schedule" in case:
@@ -387,10 +418,11 @@ def run_wait(case, st):
 
     def harness(s):
         m = nmt_mod.NmtMaster(5)
-        m.add_heartbeat_callback(lambda state: s.note(("hb-cs", state)))
+        m.add_heartbeat_callback(lambda state: s.note(("hb-cs", state, m.state_update.lock.owner is s.cur)))
         t0 = simenv.W.now
 
         def waiter():
+            s.note(("call", "waiter"))
             try:
                 if which == "heartbeat":
                     r = m.wait_for_heartbeat(TIMEOUT)
@@ -402,7 +434,9 @@ def run_wait(case, st):
 
         def receiver():
             for i, b in enumerate(hbs):
+                s.note(("hb-start", i, b))
                 m.on_heartbeat(0x705, bytes([b]), 10.0 + i)
+                s.note(("hb-end", i))
         wt = s.spawn(waiter, "waiter")
         if hbs:
             s.spawn(receiver, "receiver")
@@ -422,29 +456,13 @@ def run_wait(case, st):
         if s.hit_horizon:
             st.caps.append("schedule horizon hit")
             return
-        # heartbeats whose critical section ran after the (first) wait began
-        first_wait = next((i for i, e in enumerate(events) if e[0] == "wait-enter"), None)
-        during = [e[1] for i, e in enumerate(events) if e[0] == "hb-cs" and first_wait is not None and i > first_wait]
         if res[0] == "EXC":
             st.violation(f"C11:wait:{which}:exception", rc, "state or NmtError", res[1])
             return
-        if which == "heartbeat":
-            if during:
-                ok = res[0] == "returned" and res[2] < TIMEOUT and res[1] in {R.STATE_NAMES.get(R.after_heartbeat(x)) for x in during}
-                want = f"returns a state of {during} before the time-out"
-            else:
-                ok = res[0] == "NmtError" and abs(res[2] - TIMEOUT) < 0.2
-                want = "NmtError at the time-out"
-        else:
-            if 0 in during:
-                ok = res[0] == "returned" and res[2] < TIMEOUT + 0.2
-                want = "returns (boot-up processed during the wait)"
-            else:
-                ok = res[0] == "NmtError"
-                want = "NmtError (no boot-up during the wait)"
-        st.outcome(f"{which} during={bool(during)} -> {res[0]}")
+        ok, kind, want, during = _wait_verdict(which, "waiter", res, events, TIMEOUT)
+        st.outcome(f"{which} {kind} -> {res[0]}")
         if not ok:
-            st.violation(f"C11:wait:{which}:{'missed' if during else 'spurious'}", rc, want, f"{res} events={events}"[:400])
+            st.violation(f"C11:wait:{which}:{kind}", rc, want, f"{res} events={events}"[:400])
 
     if "schedule" in case:
         on_exec(*vsched.replay(harness, case))
